@@ -120,6 +120,10 @@ fn view(m: &MTx, i: usize, flag: u8, subscript: &[u8], value: u64) -> Option<Vec
         3 => {
             let o = m.outs.get(i)?; // no matching output: the library refuses to sign
             put(&mut v, "outi", &outb(o));
+            if !is_forkid(flag) {
+                // the original algorithm serialises i blanked outputs in front of the signed one: the index is committed
+                put(&mut v, "outidx", &(i as u32).to_le_bytes());
+            }
         }
         _ => {}
     }
@@ -388,7 +392,7 @@ impl Scenario for SpendNet {
             abstract_state: "(family, m-of-n, flag, separators class, mutation kind since signing or none, shipped?, expected verdict)",
             real: &["bsv::Transaction (add_input/add_output/set_input/set_output/set_version/set_nlocktime, sign, to/from extended CBOR and JSON)", "bsv::Interpreter::{from_transaction, run, state}", "bsv::Script::{from_bytes, from_asm_string}", "bsv::P2PKHAddress::{from_pubkey, get_unlocking_script}", "bsv::SighashSignature, bsv::TxIn extended fields"],
             stub: &["covered-view model: a ~40-line table of which fields each flag commits to (not a byte-level preimage)", "ByzSigner: RFC 6979 textbook signer over the byte-reversed double-SHA256 of the library's own preimage", "locking scripts are assembled byte-wise by the harness (families fixed by the statement)"],
-            assumptions: &["value mutations are not generated for legacy-flag signatures: the original algorithm does not commit to the value although the statement lists it", "ship events are applied only when the restored object re-serialises identically and keeps every input's locking script and declared value (fidelity of the formats is C18's subject)", "inputs/outputs are only appended or replaced in this scenario (prepend/insert histories are C04's)"],
+            assumptions: &["value mutations are not generated for legacy-flag signatures: the original algorithm does not commit to the value although the statement lists it", "ship events are applied only when the restored object re-serialises identically and keeps every input's locking script and declared value (fidelity of the formats is C18's subject)", "inputs/outputs are appended, replaced, prepended and inserted; an inserted input shifts the ones behind it together with their signatures and scripts"],
             required_probes: &["validate_expect_accept", "validate_expect_reject", "signed_before_build_complete", "mutated_covered_field", "mutated_uncovered_field", "family_p2pk", "family_p2pkh", "family_multisig", "family_twostage", "flag_legacy", "flag_forkid", "separator_present", "shipped", "byz_signed", "sig_tampered", "validated_on_shipped_copy"],
             quick_runs: 15_000,
             thorough_runs: 1_500_000,
@@ -457,7 +461,7 @@ impl Scenario for SpendNet {
                     events.push(o);
                     n_out += 1;
                 }
-                events.push(json!({"op": "finalise", "input": i, "order": if rng.chance(1, 12) { "desc" } else { "asc" }, "api": rng.chance(1, 2)}));
+                events.push(json!({"op": "finalise", "input": i, "order": match rng.below(14) { 0 => "desc", 1 => "dup", _ => "asc" }, "api": rng.chance(1, 2)}));
                 if rng.chance(1, 3) {
                     // another party finalises a different input in between (the normal workflow)
                     let j = rng.below(n_in);
@@ -467,14 +471,14 @@ impl Scenario for SpendNet {
                     events.push(json!({"op": "finalise", "input": j, "order": "asc", "api": rng.chance(1, 2)}));
                 }
                 for _ in 0..rng.weighted(&[40, 45, 15]) {
-                    let what = *rng.pick(&["version", "locktime", "outpoint", "sequence", "output_value", "output_script", "add_output", "add_input", "declared_value", "key_byte", "sig_byte", "flag_byte", "outpoint", "sequence", "output_value"]);
+                    let what = *rng.pick(&["version", "locktime", "outpoint", "sequence", "output_value", "output_script", "add_output", "add_input", "declared_value", "key_byte", "key_byte", "sig_byte", "flag_byte", "sig_extra_byte", "outpoint", "sequence", "output_value", "insert_output", "insert_output", "prepend_output", "insert_input", "prepend_input"]);
                     // bias towards OTHER inputs/outputs than the signed one: that is where flags differ
                     let mi = if rng.chance(1, 2) { i } else { rng.below(n_in) };
                     events.push(json!({"op": "mutate", "what": what, "input": mi, "output": if n_out > 0 { rng.below(n_out) } else { 0 }, "r": rng.below(1 << 30), "utxo": rng.below(n_utxo)}));
-                    if what == "add_output" {
+                    if what == "add_output" || what == "insert_output" || what == "prepend_output" {
                         n_out += 1;
                     }
-                    if what == "add_input" {
+                    if what == "add_input" || what == "insert_input" || what == "prepend_input" {
                         n_in += 1;
                     }
                 }
@@ -519,12 +523,12 @@ impl Scenario for SpendNet {
                     }
                 }
                 4 => {
-                    let what = *rng.pick(&["version", "locktime", "outpoint", "sequence", "output_value", "output_script", "add_output", "add_input", "declared_value", "key_byte", "sig_byte", "flag_byte"]);
+                    let what = *rng.pick(&["version", "locktime", "outpoint", "sequence", "output_value", "output_script", "add_output", "add_input", "declared_value", "key_byte", "sig_byte", "flag_byte", "sig_extra_byte", "insert_output", "prepend_output", "insert_input", "prepend_input"]);
                     events.push(json!({"op": "mutate", "what": what, "input": if n_in > 0 { rng.below(n_in) } else { 0 }, "output": if n_out > 0 { rng.below(n_out) } else { 0 }, "r": rng.below(1 << 30), "utxo": rng.below(n_utxo)}));
-                    if what == "add_output" {
+                    if what == "add_output" || what == "insert_output" || what == "prepend_output" {
                         n_out += 1;
                     }
-                    if what == "add_input" {
+                    if what == "add_input" || what == "insert_input" || what == "prepend_input" {
                         n_in += 1;
                     }
                 }
@@ -731,6 +735,15 @@ impl Scenario for SpendNet {
                         continue;
                     }
                     let mut order_ok = true;
+                    let mut duplicate = false;
+                    if jstr(ev, "order") == "dup" && chosen.len() > 1 && ut.family == "multisig" {
+                        // one signer fills two slots: two signatures by the first key (same one twice if it has only one)
+                        let k0 = ins[i].sigs[chosen[0]].key;
+                        let by_k0: Vec<usize> = ins[i].sigs.iter().enumerate().filter(|(_, s)| s.key == k0).map(|(p, _)| p).collect();
+                        let second = if by_k0.len() >= 2 { by_k0[by_k0.len() - 2] } else { chosen[0] };
+                        chosen[1] = second;
+                        duplicate = true;
+                    }
                     if jstr(ev, "order") == "desc" && chosen.len() > 1 {
                         chosen.reverse();
                         order_ok = false;
@@ -823,6 +836,9 @@ impl Scenario for SpendNet {
                             order_ok = false;
                         }
                     }
+                    if duplicate {
+                        order_ok = false;
+                    }
                     ins[i].fin = Some(Fin { sigs: chosen, order_ok, tampered: vec![], pristine_unl: unlocking.to_bytes(), pristine_lock: ut.lock.clone() });
                     shipped = None;
                 }
@@ -845,7 +861,7 @@ impl Scenario for SpendNet {
                             m.locktime = v;
                             applied = true;
                         }
-                        "outpoint" | "sequence" | "declared_value" | "key_byte" | "sig_byte" | "flag_byte" => {
+                        "outpoint" | "sequence" | "declared_value" | "key_byte" | "sig_byte" | "flag_byte" | "sig_extra_byte" => {
                             if i >= m.ins.len() {
                                 ctx.skip();
                                 continue;
@@ -886,7 +902,7 @@ impl Scenario for SpendNet {
                                     txin.set_satoshis(m.ins[i].declared);
                                     applied = true;
                                 }
-                                "key_byte" | "sig_byte" | "flag_byte" => {
+                                "key_byte" | "sig_byte" | "flag_byte" | "sig_extra_byte" => {
                                     let ins_sig_key = match ins[i].fin.as_ref() {
                                         Some(f) => ins[i].sigs[f.sigs[0]].key,
                                         None => {
@@ -936,6 +952,18 @@ impl Scenario for SpendNet {
                                             unl[s + off] ^= 1 << (r % 8);
                                             fin.tampered.push("sig_byte".into());
                                         }
+                                        "sig_extra_byte" => {
+                                            // DER || <one extra byte that is itself a valid flag value> || flag: not a valid encoding
+                                            let (s0, l) = pushes[(r as usize) % n_sigs];
+                                            if l < 10 || l >= 75 || s0 == 0 {
+                                                ctx.skip();
+                                                continue;
+                                            }
+                                            let extra = STD_FLAGS[(r as usize / 3) % STD_FLAGS.len()];
+                                            unl.insert(s0 + l - 1, extra);
+                                            unl[s0 - 1] = (l + 1) as u8;
+                                            fin.tampered.push("sig_extra_byte".into());
+                                        }
                                         "flag_byte" => {
                                             let (s, l) = pushes[(r as usize) % n_sigs];
                                             let old = unl[s + l - 1];
@@ -955,7 +983,7 @@ impl Scenario for SpendNet {
                                                         continue;
                                                     }
                                                 };
-                                                unl[s + 1 + (r as usize) % (l - 1)] ^= 1 << (r % 8);
+                                                unl[s + 1 + (r as usize / 5) % (l - 1)] ^= 1 << (r % 8);
                                             } else {
                                                 // the pubkey a used signature has to match (a key that no signature uses and that lies
                                                 // before the last separator is legitimately uncommitted)
@@ -963,7 +991,7 @@ impl Scenario for SpendNet {
                                                 let kb = pubkey_bytes(used_key, if ut.family == "multisig" || ut.family == "twostage" { true } else { ut.compressed });
                                                 let pos = lockb.windows(kb.len()).position(|w| w == kb.as_slice());
                                                 match pos {
-                                                    Some(pp) => lockb[pp + 1 + (r as usize) % 31] ^= 1 << (r % 8),
+                                                    Some(pp) => lockb[pp + 1 + (r as usize / 5) % (kb.len() - 1)] ^= 1 << (r % 8),
                                                     None => {
                                                         ctx.skip();
                                                         continue;
@@ -1013,6 +1041,43 @@ impl Scenario for SpendNet {
                             }
                             lib!("add_output", tx.add_output(&TxOut::new(r, &Script::from_bytes(&[0x51]).unwrap_or_default())));
                             m.outs.push(MO { value: r, script: vec![0x51] });
+                            applied = true;
+                        }
+                        "insert_output" | "prepend_output" => {
+                            if m.outs.len() >= 6 {
+                                ctx.skip();
+                                continue;
+                            }
+                            // insertion index biased to the signed input's index (what SINGLE pairs with)
+                            let k = if what == "prepend_output" { 0 } else if r % 3 == 0 { i.min(m.outs.len()) } else { (r as usize / 3) % (m.outs.len() + 1) };
+                            let to = TxOut::new(r ^ 0x5555, &Script::from_bytes(&[0x52]).unwrap_or_default());
+                            if what == "prepend_output" {
+                                lib!("prepend_output", tx.prepend_output(&to));
+                            } else {
+                                lib!("insert_output", tx.insert_output(k, &to));
+                            }
+                            m.outs.insert(k, MO { value: r ^ 0x5555, script: vec![0x52] });
+                            applied = true;
+                        }
+                        "insert_input" | "prepend_input" => {
+                            let u = jusize(ev, "utxo");
+                            if u >= utxos.len() || m.ins.len() >= 6 {
+                                ctx.skip();
+                                continue;
+                            }
+                            let k = if what == "prepend_input" { 0 } else { (r as usize / 3) % (m.ins.len() + 1) };
+                            let ut = &utxos[u];
+                            let mut txid = ut.txid.clone();
+                            txid[30] ^= (m.ins.len() as u8) + 0x40;
+                            let ti = TxIn::new(&txid, ut.vout, &Script::default(), Some(0xffff_fffd));
+                            if what == "prepend_input" {
+                                lib!("prepend_input", tx.prepend_input(&ti));
+                            } else {
+                                lib!("insert_input", tx.insert_input(k, &ti));
+                            }
+                            // every input at or behind k moves up by one, together with its signatures and scripts
+                            m.ins.insert(k, MI { txid, vout: ut.vout, seq: 0xffff_fffd, utxo: u, declared: ut.value });
+                            ins.insert(k, InState { sigs: vec![], fin: None });
                             applied = true;
                         }
                         "add_input" => {
